@@ -152,8 +152,15 @@ Definition is_bool (v : cval) : bool := match v with VBool _ => true | _ => fals
 Definition k_type : key := [95;116;121;112;101].       (* "_type" *)
 Definition k_index : key := [95;105;110;100;101;120].  (* "_index" *)
 
+(* [pre] selects the behaviour BEFORE two repairs of the writer (kept as documentation, see the
+   ..._prefix_..._refuted theorems); the code is [pre = false]:
+   - doLogEventFilling skips a (column, value) pair when the event already gave that column a value
+     (duplicate flattened key: the first value is kept);
+   - AllSeenColumnSizes also records the null records written by backFillPastRecords and is set to
+     INCONSISTENT for a column that convertColumnToStrings rewrote. *)
+
 (* one (column, value) of an event: initAndBackFillColumn + the type switch of doLogEventFilling *)
-Definition add_field (card : N) (st : store) (kv : key * cval) : store :=
+Definition add_field_core (pre : bool) (card : N) (st : store) (kv : key * cval) : store :=
   let '(k, v) := kv in
   let rc := st_rc st in
   let cw0 := get_cw k (st_cols st) in
@@ -170,8 +177,14 @@ Definition add_field (card : N) (st : store) (kv : key * cval) : store :=
      st_inblock := put k true (st_inblock st);
      st_blooms := blooms2; st_ris := ris2;
      st_rc := rc; st_ts := st_ts st;
-     st_seen := seen_update k (N.of_nat (length (enc_val v))) (st_total st) (st_seen st);
+     st_seen := seen_update k (N.of_nat (length (enc_val v))) (st_total st)
+                  (if late && negb pre then seen_update k 1 (st_total st) (st_seen st) else st_seen st);
      st_total := st_total st |}.
+
+Definition add_field (pre : bool) (card : N) (st : store) (kv : key * cval) : store :=
+  if negb pre && match get (fst kv) (st_inblock st) with Some true => true | _ => false end
+  then st     (* columnsInBlock[cname] is already true: second value for the column in this event *)
+  else add_field_core pre card st kv.
 
 (* the loop over columnsInBlock at the end of doLogEventFilling *)
 Fixpoint end_backfill (card rc total : N) (inb : list (key * bool))
@@ -187,8 +200,8 @@ Fixpoint end_backfill (card rc total : N) (inb : list (key * bool))
   end.
 
 (* doLogEventFilling + the counters of AddEntry *)
-Definition add_event (card : N) (st : store) (e : event) : store :=
-  let st1 := fold_left (add_field card) (ev_fields e) st in
+Definition add_event (pre : bool) (card : N) (st : store) (e : event) : store :=
+  let st1 := fold_left (add_field pre card) (ev_fields e) st in
   let '(inb, cols, seen) := end_backfill card (st_rc st1) (st_total st1) (st_inblock st1) (st_cols st1) (st_seen st1) in
   {| st_cols := cols; st_inblock := inb; st_blooms := st_blooms st1; st_ris := st_ris st1;
      st_rc := st_rc st1 + 1; st_ts := st_ts st1 ++ [ev_ts e];
@@ -276,6 +289,22 @@ Fixpoint consolidate (ks : list key) (cols : list (key * colwip)) (blooms ris : 
     else consolidate r cols blooms ris
   end.
 
+(* AllSeenColumnSizes after consolidateColumnTypes: INCONSISTENT for every column rewritten as text *)
+Fixpoint consolidate_seen (ks : list key) (cols : list (key * colwip)) (blooms ris : list key)
+  (seen : list (key * N)) : list (key * N) :=
+  match ks with
+  | [] => seen
+  | k :: r =>
+    if mem k blooms && mem k ris then
+      let b := cw_buf (get_cw k cols) in
+      match to_numbers (S (length b)) b with
+      | Some b' => consolidate_seen r (put k (fresh_cw b') cols) (del k blooms) ris seen
+      | None => consolidate_seen r (put k (fresh_cw (to_strings (S (length b)) b)) cols) blooms (del k ris)
+                  (put k INCONSISTENT seen)
+      end
+    else consolidate_seen r cols blooms ris seen
+  end.
+
 (* ---------- block encodings ---------- *)
 Definition ENC_RAW : N := 0.    (* ZSTD_COMLUNAR_BLOCK: payload = zstd(column buffer); the model keeps the buffer *)
 Definition ENC_DICT : N := 1.   (* ZSTD_DICTIONARY_BLOCK *)
@@ -308,19 +337,22 @@ Fixpoint encode_cols (card : N) (cols : list (key * colwip)) : list (key * (N * 
   end.
 
 (* AppendWipToSegfile + resetWipBlock *)
-Definition flush_block (card : N) (st : store) : fblock * store :=
+Definition flush_block (pre : bool) (card : N) (st : store) : fblock * store :=
   let '(cols, blooms, ris) := consolidate (map fst (st_inblock st)) (st_cols st) (st_blooms st) (st_ris st) in
   ({| fb_n := st_rc st; fb_ts := ts_encode (st_ts st); fb_cols := encode_cols card cols |},
    {| st_cols := map (fun kc => (fst kc, empty_cw)) cols; st_inblock := []; st_blooms := blooms; st_ris := [];
-      st_rc := 0; st_ts := []; st_seen := st_seen st; st_total := st_total st |}).
+      st_rc := 0; st_ts := [];
+      st_seen := if pre then st_seen st
+                 else consolidate_seen (map fst (st_inblock st)) (st_cols st) (st_blooms st) (st_ris st) (st_seen st);
+      st_total := st_total st |}).
 
 (* a segment = its blocks, each a non-empty list of events, flushed one after the other *)
-Fixpoint ingest_blocks (card : N) (st : store) (blocks : list (list event)) : list fblock * store :=
+Fixpoint ingest_blocks (pre : bool) (card : N) (st : store) (blocks : list (list event)) : list fblock * store :=
   match blocks with
   | [] => ([], st)
   | b :: r =>
-    let '(fb, st1) := flush_block card (fold_left (add_event card) b st) in
-    let '(fbs, st2) := ingest_blocks card st1 r in
+    let '(fb, st1) := flush_block pre card (fold_left (add_event pre card) b st) in
+    let '(fbs, st2) := ingest_blocks pre card st1 r in
     (fb :: fbs, st2)
   end.
 
@@ -491,7 +523,7 @@ Definition ingest_val (v : cval) : bool :=
   wf_val v && match v with VUint _ => false | _ => true end.
 
 Definition event_ok (e : event) : bool :=
-  nodup_keys (ev_fields e) && forallb (fun kv => ingest_val (snd kv)) (ev_fields e) && ts_ok (ev_ts e).
+  forallb (fun kv => ingest_val (snd kv)) (ev_fields e) && ts_ok (ev_ts e).
 
 (* the text a value has after convertColumnToStrings *)
 Definition to_text (fc : fconv) (v : cval) : cval :=
